@@ -309,10 +309,63 @@ def pool(workers: int | None = None, need_sedpack: bool = True):
     n = workers or min(16, os.cpu_count() or 4)
     init = _worker_init if need_sedpack else None
     args = ([str(VERIF)],) if need_sedpack else ()
-    return cf.ProcessPoolExecutor(max_workers=n,
-                                  mp_context=mp.get_context("spawn"),
-                                  initializer=init,
-                                  initargs=args)
+    return WatchedPool(cf.ProcessPoolExecutor(
+        max_workers=n, mp_context=mp.get_context("spawn"), initializer=init,
+        initargs=args))
+
+
+class WatchedPool:
+    """ProcessPoolExecutor whose map() cannot hang forever: a worker that is
+    dead-locked inside native code (GIL held, no signal handler can run)
+    would otherwise block the whole check."""
+    MAP_TIMEOUT = int(os.environ.get("VF_MAP_TIMEOUT", "3600"))
+
+    def __init__(self, ex) -> None:
+        self.ex = ex
+        self._max_workers = ex._max_workers
+        self._killed = False
+
+    def __enter__(self):
+        return self
+
+    def __exit__(self, *exc):
+        self.shutdown(wait=not self._killed)
+        return False
+
+    def submit(self, fn, *a, **kw):
+        return self.ex.submit(fn, *a, **kw)
+
+    @property
+    def _processes(self):
+        return self.ex._processes
+
+    def shutdown(self, wait=True, cancel_futures=False):
+        self.ex.shutdown(wait=wait and not self._killed,
+                         cancel_futures=cancel_futures or self._killed)
+
+    def kill(self):
+        self._killed = True
+        for p in list(getattr(self.ex, "_processes", {}).values()):
+            try:
+                p.kill()
+            except Exception:  # pylint: disable=broad-except
+                pass
+
+    def map(self, fn, *iterables, chunksize=1, timeout=None):
+        import concurrent.futures as cf
+        it = self.ex.map(fn, *iterables, chunksize=chunksize,
+                         timeout=timeout or self.MAP_TIMEOUT)
+        while True:
+            try:
+                yield next(it)
+            except StopIteration:
+                return
+            except cf.TimeoutError:
+                self.kill()
+                raise HarnessError(
+                    f"a worker process did not return within "
+                    f"{timeout or self.MAP_TIMEOUT} s (hung in native code?)"
+                ) from None
 
 
 def import_sedpack_quietly():
@@ -329,3 +382,43 @@ def import_sedpack_quietly():
         os.dup2(saved, 2)
         os.close(devnull)
         os.close(saved)
+
+
+import concurrent.futures as _cf  # noqa: E402
+
+
+def run_with_watchdog(fn, tasks, per_task_s: int, ctx=None,
+                      stop_after_hang=False):
+    """pool.map with a per-task time-out: a hung worker is a finding, the
+    pool is rebuilt for the remaining tasks."""
+    results = []
+    todo = list(tasks)
+    while todo:
+        ex = pool()
+        futs = [(t, ex.submit(fn, t)) for t in todo]
+        todo = []
+        hung = False
+        for t, f in futs:
+            if hung:
+                if f.done():
+                    results.append((t, f.result()))
+                else:
+                    todo.append(t)
+                continue
+            try:
+                results.append((t, f.result(timeout=per_task_s)))
+            except _cf.TimeoutError:
+                hung = True
+                results.append((t, {"hung": True, "args": list(t), "bad": [
+                    ({"symptom": "hang", "iface": "any"},
+                     f"{t}: the worker did not finish within {per_task_s} s "
+                     f"(watchdog could not interrupt it)", str(t))
+                ], "cases": 0, "required": 0, "harness": None}))
+        if hung:
+            ex.kill()
+        ex.shutdown(wait=not hung, cancel_futures=True)
+        if hung and stop_after_hang:
+            break  # the remaining tasks are not run (reported by the caller)
+    return results
+
+
